@@ -45,7 +45,7 @@ class C02(Prop):
     task_timeout = {'quick': 300, 'thorough': 1800}
 
     def bounds(self, tier):
-        return {'world': [1, 2, 3, 4] if tier == 'quick' else [1, 2, 3, 4, 6],
+        return {'world': [2, 3, 4] if tier == 'quick' else [2, 3, 4, 6, 8],
                 'grad_workers': 'every divisor of the world size (as float k/W) and the three strategy enums',
                 'models': {k: [str(s) for s in v] for k, v in MODELS.items()}, 'steps': '1..2',
                 'bucket_cap': ['0 (unbucketed)', 'symbolic (forks on every bucketing)', 'huge'],
@@ -53,7 +53,7 @@ class C02(Prop):
 
     def configs(self, tier, seed):
         out = []
-        worlds = [2, 3, 4] if tier == 'quick' else [2, 3, 4, 6]
+        worlds = [2, 3, 4] if tier == 'quick' else [2, 3, 4, 6, 8]
         i = 0
         for w in worlds:
             for k in divisors(w):
